@@ -724,3 +724,50 @@ impl CpcSketch {
         self.num_coupons
     }
 }
+
+#[cfg(feature = "verif-hooks")]
+impl CpcSketch {
+    /// Verification hook: offers a crafted `(row << 6) | col` pair exactly as `update` offers
+    /// a hashed one.
+    pub fn verif_row_col_update(&mut self, row_col: u32) {
+        self.row_col_update(row_col);
+    }
+
+    /// Verification hook: the k x 64 bit matrix the sketch currently represents.
+    pub fn verif_bit_matrix(&self) -> Vec<u64> {
+        self.build_bit_matrix()
+    }
+
+    /// Verification hook: dumps the in-memory state.
+    pub fn verif_state(&self) -> crate::verif::VerifCpcState {
+        let (table_lg_size, table_entries, table_items) = match &self.surprising_value_table {
+            Some(t) => {
+                let (lg, n) = t.verif_parts();
+                let items = t
+                    .slots()
+                    .iter()
+                    .copied()
+                    .filter(|&s| s != u32::MAX)
+                    .collect();
+                (lg, n, items)
+            }
+            None => (0, 0, vec![]),
+        };
+        crate::verif::VerifCpcState {
+            lg_k: self.lg_k,
+            num_coupons: self.num_coupons,
+            window_offset: self.window_offset,
+            first_interesting_column: self.first_interesting_column,
+            has_window: !self.sliding_window.is_empty(),
+            window: self.sliding_window.clone(),
+            has_table: self.surprising_value_table.is_some(),
+            table_entries,
+            table_items,
+            table_lg_size,
+            merge_flag: self.merge_flag,
+            kxp: self.kxp,
+            hip_est_accum: self.hip_est_accum,
+            flavor: self.flavor() as u8,
+        }
+    }
+}
